@@ -7,5 +7,11 @@ Obs == ndJsonDeserialize(ObsFile)
 VARIABLE l
 Init == l = 1
 Next == l < Len(Obs) /\ l' = l + 1
-Conforms == LET o == Obs[l] IN (o.out = Run(o.c.p, o.c.recs)) \/ PrintT(ToJson([line |-> l, expected |-> Run(o.c.p, o.c.recs)]))
+\* a law case (family emitsnap): out0, the output of the cut-down run, must be a prefix of out
+IsLaw(c) == "law" \in DOMAIN c
+IsPrefixOf(a, b) == Len(a) <= Len(b) /\ SubSeq(b, 1, Len(a)) = a
+Conforms == LET o == Obs[l] IN
+  IF IsLaw(o.c) THEN (IsPrefixOf(o.out0, o.out) /\ o.out0 # <<>> /\ o.out0 # << <<"fatal">> >>)
+                     \/ PrintT(ToJson([line |-> l, expected |-> <<"the output of the cut-down run as a prefix", o.out0>>]))
+  ELSE (o.out = Run(o.c.p, o.c.recs)) \/ PrintT(ToJson([line |-> l, expected |-> Run(o.c.p, o.c.recs)]))
 =============================================================================
